@@ -365,3 +365,240 @@ func init() {
 		return info
 	}
 }
+
+// ---- C02: projection beyond the exhaustive bounds --------------------------------------
+
+// arith generates an arithmetic tree whose exact value stays small enough for TLC's
+// 32-bit rationals: at most `mul` multiplications / shifts, divisions only by small
+// literals, bit operators on non-negative integer columns.
+func (g *Gen) arith(depth int, mul *int) Node {
+	if depth == 0 || g.R.Intn(4) == 0 {
+		switch g.R.Intn(6) {
+		case 0:
+			return Col("a")
+		case 1:
+			return Col("h")
+		case 2:
+			return Col("n", "p")
+		case 3:
+			return Col("m")
+		case 4:
+			return Lit(TInt(g.R.Intn(7) - 2))
+		default:
+			return Lit(normNum(TNum(g.R.Intn(9)-2, 2)))
+		}
+	}
+	switch g.R.Intn(10) {
+	case 0, 1, 2:
+		return Bin(g.Pick("+", "-").(string), g.arith(depth-1, mul), g.arith(depth-1, mul))
+	case 3:
+		if *mul > 0 {
+			*mul--
+			return Bin("*", g.arith(depth-1, mul), g.arith(depth-1, mul))
+		}
+		return Bin("+", g.arith(depth-1, mul), g.arith(depth-1, mul))
+	case 4:
+		return Bin("/", g.arith(depth-1, mul), Lit(TInt(g.Pick(2, 4, 5, 10).(int))))
+	case 5:
+		return Bin(g.Pick("div", "%").(string), g.arith(depth-1, mul), Lit(TInt(g.Pick(2, 3, 7).(int))))
+	case 6:
+		return Bin(g.Pick("&", "|", "^").(string), Col("u"), Lit(TInt(g.R.Intn(16))))
+	case 7:
+		if *mul > 0 {
+			*mul--
+			return Bin(g.Pick("<<", ">>").(string), Col("u"), Lit(TInt(g.R.Intn(4))))
+		}
+		return Un("~", Col("u"))
+	case 8:
+		return Un("-", Bin("+", g.arith(depth-1, mul), Lit(TInt(1))))
+	default:
+		cond := CmpE(g.Str(cmpOps), Col("a"), Lit(TInt(g.R.Intn(9)-2)))
+		els := None()
+		if g.R.Intn(2) == 0 {
+			els = g.arith(depth-1, mul)
+		}
+		return CaseE([]any{Node{"c": cond, "v": g.arith(depth-1, mul)}}, els)
+	}
+}
+
+func init() {
+	Retrace["C02"] = engineRetrace
+	TraceGen["C02"] = func(seed int64, n int, tier string, w io.Writer) TraceInfo {
+		g := NewGen(seed)
+		info := TraceInfo{}
+		for i := 0; i < n; i++ {
+			nr := g.R.Intn(7)
+			rows := make([]any, nr)
+			for j := range rows {
+				rows[j] = TObj(Node{"a": TInt(g.R.Intn(13) - 3), "h": normNum(TNum(g.R.Intn(21)-5, 2)), "u": TInt(g.R.Intn(40)),
+					"n": TObj(Node{"p": TInt(g.R.Intn(6))}), "s": TStr(g.Str(strPool))})
+			}
+			doc := TObj(Node{"t": TArr(rows)})
+			sel := []any{}
+			names := []string{"v", "w", "a", "x", "s"}
+			for k := 0; k <= g.R.Intn(4); k++ {
+				switch g.R.Intn(6) {
+				case 0:
+					sel = append(sel, Star())
+				case 1:
+					sel = append(sel, Item(Col(g.Pick("a", "s", "m", "h").(string)), ""))
+				default:
+					mul := 2
+					sel = append(sel, Item(g.arith(1+g.R.Intn(5), &mul), names[g.R.Intn(len(names))]))
+				}
+			}
+			q := With(BaseQ(), "sel", sel)
+			if g.R.Intn(2) == 0 {
+				q["where"] = CmpE(g.Str(cmpOps), Col("a"), Lit(TInt(g.R.Intn(9)-2)))
+			}
+			ev, out := RecordEngine(w, q, doc, Style{}, nil)
+			info.Queries++
+			info.Events += ev
+			if len(info.Samples) < 3 {
+				info.Samples = append(info.Samples, out.SQL)
+			}
+		}
+		return info
+	}
+}
+
+// ---- C03: GROUP BY / aggregates beyond the exhaustive bounds ---------------------------
+
+func AggItem(f, col, as string) Node {
+	if col == "" {
+		return Item(Agg(f), as)
+	}
+	return Item(Agg(f, col), as)
+}
+
+func init() {
+	Retrace["C03"] = engineRetrace
+	TraceGen["C03"] = func(seed int64, n int, tier string, w io.Writer) TraceInfo {
+		g := NewGen(seed)
+		info := TraceInfo{}
+		zs := []Node{TNull(), TInt(1), TStr("1"), TStr("<nil>"), TInt(2), TStr("x")}
+		for i := 0; i < n; i++ {
+			nr := g.R.Intn(11)
+			rows := make([]any, nr)
+			for j := range rows {
+				b := TNull()
+				if g.R.Intn(3) != 0 {
+					b = TInt(g.R.Intn(9))
+				}
+				rows[j] = TObj(Node{"g": TInt(g.R.Intn(3)), "h": TStr(g.Pick("x", "y", "X", "").(string)), "z": zs[g.R.Intn(len(zs))],
+					"a": TInt(g.R.Intn(12) - 2), "b": b, "d": normNum(TNum(g.R.Intn(9), 2))})
+			}
+			doc := TObj(Node{"t": TArr(rows)})
+			q := BaseQ()
+			aggs := func(k int) []any {
+				out := []any{}
+				names := []string{"p", "q", "r", "s"}
+				for x := 0; x < k; x++ {
+					f := g.Pick("count", "sum", "min", "max", "avg").(string)
+					col := g.Pick("a", "b", "d").(string)
+					if f == "count" && g.R.Intn(2) == 0 {
+						col = ""
+					} else if f == "count" || f == "avg" {
+						col = g.Pick("a", "d").(string) // NULL-free columns only
+					}
+					out = append(out, AggItem(f, col, names[x]))
+				}
+				return out
+			}
+			if g.R.Intn(4) == 0 {
+				q["sel"] = aggs(1 + g.R.Intn(4))
+			} else {
+				gcols := []string{"g", "h", "z"}
+				g.R.Shuffle(3, func(a, b int) { gcols[a], gcols[b] = gcols[b], gcols[a] })
+				gcols = gcols[:1+g.R.Intn(3)]
+				group, sel := []any{}, []any{}
+				for _, c := range gcols {
+					group = append(group, c)
+					if g.R.Intn(5) != 0 {
+						sel = append(sel, Item(Col(c), ""))
+					}
+				}
+				q["group"] = group
+				sel = append(sel, aggs(1+g.R.Intn(4))...)
+				if g.R.Intn(8) == 0 {
+					sel = []any{Star()}
+				}
+				q["sel"] = sel
+				switch g.R.Intn(4) {
+				case 0:
+					q["having"] = CmpE(g.Str(cmpOps), Agg("count"), Lit(TInt(g.R.Intn(4))))
+				case 1:
+					q["having"] = CmpE(g.Str(cmpOps), Agg(g.Pick("sum", "max", "min").(string), "a"), Lit(TInt(g.R.Intn(12))))
+				}
+			}
+			if g.R.Intn(2) == 0 {
+				q["where"] = CmpE(g.Str(cmpOps), Col("a"), Lit(TInt(g.R.Intn(12)-2)))
+			}
+			ev, out := RecordEngine(w, q, doc, Style{}, nil)
+			info.Queries++
+			info.Events += ev
+			if len(info.Samples) < 3 {
+				info.Samples = append(info.Samples, out.SQL)
+			}
+		}
+		return info
+	}
+}
+
+// ---- C06: DISTINCT / UNION beyond the exhaustive bounds ---------------------------------
+
+func init() {
+	Retrace["C06"] = engineRetrace
+	TraceGen["C06"] = func(seed int64, n int, tier string, w io.Writer) TraceInfo {
+		g := NewGen(seed)
+		info := TraceInfo{}
+		avals := []Node{TInt(1), TInt(2), TStr("1"), TStr("x"), TStr("x b:y"), TStr("map[a:1]"), TInt(3)}
+		bvals := []Node{TStr("y"), TStr("z"), TNull(), TInt(1), TBool(true)}
+		table := func() Node {
+			rows := make([]any, g.R.Intn(7))
+			for j := range rows {
+				f := Node{"a": avals[g.R.Intn(len(avals))]}
+				if g.R.Intn(4) != 0 {
+					f["b"] = bvals[g.R.Intn(len(bvals))]
+				}
+				rows[j] = TObj(f)
+			}
+			return TArr(rows)
+		}
+		for i := 0; i < n; i++ {
+			doc := TObj(Node{"t": table(), "u": table(), "v": table(), "w": table()})
+			var q Node
+			sels := [][]any{{Star()}, {Item(Col("a"), "")}, {Item(Col("a"), ""), Item(Col("b"), "")}, {Item(Col("b"), "k"), Item(Col("a"), "")}}
+			if g.R.Intn(3) == 0 {
+				q = With(BaseQ(), "sel", sels[g.R.Intn(len(sels))], "distinct", g.R.Intn(5) != 0)
+			} else {
+				sel := sels[g.R.Intn(len(sels))]
+				names := []string{"t", "u", "v", "w"}
+				br := func(k int) Node {
+					b := With(BaseQ(), "sel", sel, "from", Table("", names[k]))
+					if g.R.Intn(4) == 0 {
+						b["distinct"] = true
+					}
+					return b
+				}
+				q = br(0)
+				for k := 1; k < 2+g.R.Intn(3); k++ {
+					q = Node{"k": "union", "l": q, "r": br(k), "all": g.R.Intn(2) == 0, "limit": -1, "offset": -1}
+				}
+			}
+			switch g.R.Intn(4) {
+			case 0:
+				q["limit"] = g.R.Intn(8)
+			case 1:
+				q["limit"], q["offset"] = g.R.Intn(8), g.R.Intn(6)
+			}
+			ev, out := RecordEngine(w, q, doc, Style{}, nil)
+			info.Queries++
+			info.Events += ev
+			if len(info.Samples) < 3 {
+				info.Samples = append(info.Samples, out.SQL)
+			}
+		}
+		return info
+	}
+}
